@@ -183,3 +183,26 @@ def fresh_bytes(tag, n):
     substituted by the harness)"""
     import secrets
     return secrets.token_bytes(n)
+
+
+def repeat(item, n):
+    return [item] * n
+
+
+def top_items(stack, n):
+    """the top n items, top first, without removing them"""
+    d = list(stack.deque)
+    return [d[len(d) - 1 - j] for j in range(n)]
+
+
+def xor_bytes(a, b):
+    return bytes(x ^ y for x, y in zip(a, b))
+
+
+def imin(a, b):
+    return a if a < b else b
+
+
+def int_prod_from(c, items):
+    """c times the product of the decoded items"""
+    return c * int_prod([b'\x01'] + list(items)) if items else c
